@@ -171,6 +171,9 @@ fn main() {
         t.violation("", what, case);
     };
 
+    // (the whole enumeration runs under a guard: a panic of the library is a violation, not a
+    // crash of the checker)
+    let domain = std::panic::catch_unwind(std::panic::AssertUnwindSafe(|| {
     // --- all 64 sets: construction routes, len, is_empty, iteration, renderings
     for b in 0u8..64 {
         let s = build1(b);
@@ -394,6 +397,11 @@ fn main() {
                 bad(&mut t, format!("Unexpected renders {:?}, expected {want:?}", u.to_string()), json!({"kind": "unexpected", "bits": b}));
             }
         }
+    }
+    }));
+    if let Err(p) = domain {
+        let msg = p.downcast_ref::<String>().cloned().or_else(|| p.downcast_ref::<&str>().map(|s| s.to_string())).unwrap_or_default();
+        t.violation("", format!("the library panicked during the enumeration of the 64 sets: {msg}"), json!({"kind": "panic"}));
     }
     rep.absorb(t);
 
